@@ -369,6 +369,30 @@ def records (file : Bs) (m : Mode) (p : Nat) : List (Option Rec) :=
 /-- `len(reader)` -/
 def len (file : Bs) : Nat := (offsets file).length
 
+/-! executable versions that build the offset table once (`_parse_file_structure` runs once per reader);
+    equal to the definitions above by unfolding (`select_eq_selectFast`, `records_eq_recordsFast`);
+    the driver runs these -/
+
+def passesWith (file : Bs) (offs : List Nat) (p : Nat) (i : Nat) : Bool :=
+  match linePrio (readAt file (offs.getD i 0)) with
+  | some q => q ≤ p
+  | none => false
+
+def selectFast (file : Bs) (m : Mode) (p : Nat) : List Nat :=
+  let offs := offsets file
+  let sel := (visit offs.length m).filter (passesWith file offs p)
+  match m with
+  | .head n => sel.take n
+  | _ => sel
+
+def recordsFast (file : Bs) (m : Mode) (p : Nat) : List (Option Rec) :=
+  let offs := offsets file
+  (selectFast file m p).map (fun i => parseLine (readAt file (offs.getD i 0)))
+
+theorem select_eq_selectFast (file : Bs) (m : Mode) (p : Nat) : select file m p = selectFast file m p := rfl
+
+theorem records_eq_recordsFast (file : Bs) (m : Mode) (p : Nat) : records file m p = recordsFast file m p := rfl
+
 /-! ### levels (`PenlogPriority.from_level` / `to_level`) -/
 
 def fromLevel (l : Nat) : Option Nat :=
